@@ -339,7 +339,7 @@ ASSUME_GEN = ["pre-state: arbitrary generator satisfying the representation inva
               "reference model S* = harness/spec/ctph.rs (pure CTPH), validated natively against the repository's "
               "libfuzzy-generated vectors by dev/validate_model"]
 ALL_PAIRS = [(s, e) for s in range(31) for e in range(s + 1, 32)]
-BOUNDARY_PAIRS = [(0, 1), (0, 31), (29, 31), (30, 31)]
+BOUNDARY_PAIRS = [(0, 1), (0, 2), (26, 31), (29, 31), (30, 31)]
 
 
 def gen_q(kind, st, en, prop, tiers, cap, cost, extra_name=""):
@@ -355,6 +355,8 @@ def gen_q(kind, st, en, prop, tiers, cap, cost, extra_name=""):
         "c03_two_iter": ("inductive step", "update_by_iter over two bytes from ANY invariant state [%d,%d)" % (st, en)),
         "c03_two_addslice": ("inductive step", "+= &[u8] of two bytes from ANY invariant state [%d,%d)" % (st, en)),
         "c03_two_addarray": ("inductive step", "+= &[u8; 2] from ANY invariant state [%d,%d)" % (st, en)),
+        "c03_one_item": ("inductive step", "one-item chunks in all five forms == update_by_byte bit for bit, from ANY invariant "
+                         "state [%d,%d)" % (st, en)),
     }
     shape, bound = shapes[kind]
     enc = list(GEN_ENC)
@@ -377,6 +379,7 @@ GEN_CALL = {
     "c01_step": "step_byte(%d, %d)", "c01_digest_trunc": "digest_trunc(%d, %d)", "c01_digest_long": "digest_long(%d, %d)",
     "c03_two_slice": "step_two(%d, %d, 0)", "c03_two_iter": "step_two(%d, %d, 1)",
     "c03_two_addslice": "step_two(%d, %d, 2)", "c03_two_addarray": "step_two(%d, %d, 3)",
+    "c03_one_item": "step_one_item(%d, %d)",
 }
 
 for (st, en) in ALL_PAIRS:
@@ -384,9 +387,10 @@ for (st, en) in ALL_PAIRS:
     gen_q("c01_digest_trunc", st, en, "C01", ("quick", "thorough"), (900, 1800), 300)
     gen_q("c01_digest_long", st, en, "C01", ("quick", "thorough"), (900, 1800), 300)
 for (st, en) in [(0, 1), (0, 2), (2, 5), (0, 31), (29, 31), (30, 31), (7, 8), (12, 20)]:
+    gen_q("c03_one_item", st, en, "C03", ("quick", "thorough") if (st, en) in ((0, 2), (2, 5), (29, 31)) else ("thorough",),
+          (900, 2400), 300)
     for kind in ("c03_two_slice", "c03_two_iter", "c03_two_addslice", "c03_two_addarray"):
-        quick = (st, en) in ((0, 2), (29, 31)) and kind in ("c03_two_slice", "c03_two_iter") or ((st, en) == (2, 5))
-        gen_q(kind, st, en, "C03", ("quick", "thorough") if quick else ("thorough",), (900, 2400), 500)
+        gen_q(kind, st, en, "C03", ("thorough",), (900, 3600), 1500)
 
 PROP_META["C01"] = {
     "technique": "Kani/CBMC inductive single-step differential against a pure-CTPH reference model: arbitrary "
@@ -429,8 +433,8 @@ K("c03_finalize_is_pure", "C03", M_GEN, cfg="release", shape="inductive step", c
   unwindset=[("@memcmp.0", 70)],
   bound="clone / finalize* leave the generator bit-identical; arbitrary invariant state [2,4)",
   enc=["Generator::clone", "finalize", "finalize_without_truncation", "finalize_raw"], assumptions=ASSUME_GEN[:1])
-K("c03_hash_buf_wiring_l3", "C03", M_EASY, cfg="release", shape="BMC", cap=(900, 2400), cost=600, mem=14,
-  bound="hash_buf on every buffer of <= 3 bytes == new + hint + update + finalize",
+K("c03_hash_buf_wiring_l6", "C03", M_EASY, cfg="release", shape="BMC", cap=(900, 2400), cost=300, mem=14,
+  bound="hash_buf on a buffer of symbolic length <= 6 (concrete content) == new + hint + update + finalize",
   enc=["generate_easy::hash_buf"])
 K("c12_new_and_reset", "C12", M_GEN, cfg="release", shape="inductive step", cap=(600, 1200), cost=100,
   bound="reset() from a COMPLETELY arbitrary generator (no invariant assumed)",
@@ -530,7 +534,7 @@ def select(prop, tier, seed, qs):
     rnd = random.Random(seed)
     rest = [p for p in ALL_PAIRS if p not in BOUNDARY_PAIRS]
     pick = set(BOUNDARY_PAIRS) | set(rnd.sample(rest, QUICK_ROTATING))
-    long_only = {(0, 31), (30, 31)}
+    long_only = {(0, 2), (30, 31)}
     return others + [q for q in fam if (q.gen["st"], q.gen["en"]) in pick
                      and (q.gen["kind"] != "c01_digest_long" or (q.gen["st"], q.gen["en"]) in long_only)]
 
@@ -842,12 +846,12 @@ for (nm, tiers, cap, cost, T) in [("c04_dual_driver_short_t10", ("quick", "thoro
                                   ("c04_dual_driver_short_t14", ("thorough",), (0, 3600), 1500, 14),
                                   ("c04_dual_capacity_bh2_short_t37", ("thorough",), (0, 3600), 2000, 37),
                                   ("c04_dual_capacity_bh2_short_t40", ("thorough",), (0, 3600), 3000, 40)]:
-    K(nm, "C04", M_DUAL, tiers=tiers, cap=cap, cost=cost, mem=14,
+    K(nm, "C04", M_DUAL, cfg="release", tiers=tiers, cap=cap, cost=cost, mem=14,
       unwindset=alg_rules(n_text=T + 2, n_verify=T + 2) + dual_rules(n_in=T + 2, n_rle=17), shape="BMC",
       bound=("dual parser: '3::' + every byte string of <= %d bytes (block hash 2 reaches and exceeds the capacity 32)" % (T - 3))
       if "capacity" in nm else ("dual parser: every byte string of <= %d bytes" % T),
       enc=["FuzzyHashDualData::from_bytes_with_last_index", "from_bytes", "from_raw_form", "to_raw_form", "is_valid"])
-K("c07_parser_route_short_t10", "C07", M_DUAL, fn="c04_dual_driver_short_t10", tiers=("thorough",), cap=(0, 2400), cost=500,
+K("c07_parser_route_short_t10", "C07", M_DUAL, fn="c04_dual_driver_short_t10", cfg="release", tiers=("thorough",), cap=(0, 2400), cost=500,
   mem=14, unwindset=alg_rules(n_text=12, n_verify=12) + dual_rules(n_in=12, n_rle=17), shape="BMC",
   bound="parsing a text gives the same dual hash as compressing the parsed raw hash; every byte string of <= 10 bytes",
   enc=["FuzzyHashDualData::from_bytes_with_last_index", "from_raw_form"])
@@ -1031,8 +1035,8 @@ for cfg in ("unchecked", "unchecked-release", "unsafe", "unsafe-release"):
              "new_from_internals_unchecked"])
 
 # capacity boundary of the collapsing parser in the quick tier (structured prefix, free tail)
-for (nm, N, T, tiers, cap, cost) in [("c04_bh32_t40_norm_tail", 32, 40, ("quick", "thorough"), (600, 1200), 150),
-                                     ("c04_bh64_t72_norm_tail", 64, 72, ("quick", "thorough"), (900, 1800), 300)]:
+for (nm, N, T, tiers, cap, cost) in [("c04_bh32_t40_norm_tail", 32, 40, ("quick", "thorough"), (900, 1800), 300),
+                                     ("c04_bh64_t72_norm_tail", 64, 72, ("thorough",), (0, 3000), 1500)]:
     K(nm, "C04", M_ALG, tiers=tiers, cap=cap, cost=cost, mem=12, unwindset=alg_rules(n_text=T + 2), shape="BMC",
       bound="block hash field kernel ::<%d>, collapsing: %d run-free symbols followed by every byte string of <= 11 bytes "
             "(capacity reached and exceeded, raw and collapsed)" % (N, N - 3),
@@ -1079,12 +1083,12 @@ K("c08_ed_long_a_short_b_q", "C08", M_PA, fn="c08_ed_long_a_short_b", cfg="relea
   bound="|a| in {63,64} over 4 symbols, |b| <= 3 (top bits of the 64-bit vector, full-length strings)",
   enc=["BlockHashPositionArrayImplInternal::edit_distance_internal"], assumptions=[ASSUME_SYM, ASSUME_MASKS])
 
-K("c04_dual_capacity_bh2_short_tail", "C04", M_DUAL, cap=(900, 2400), cost=400, mem=14,
+K("c04_dual_capacity_bh2_short_tail", "C04", M_DUAL, cfg="release", cap=(900, 2400), cost=400, mem=14,
   unwindset=alg_rules(n_text=42, n_verify=42) + dual_rules(n_in=42, n_rle=17), shape="BMC",
   bound="dual parser, capacity class: '3::' + 29 run-free symbols + every byte string of <= 8 bytes (block hash 2 reaches and "
         "exceeds 32 symbols raw, with runs that collapse)",
   enc=["FuzzyHashDualData::from_bytes_with_last_index", "from_raw_form", "to_raw_form", "is_valid"])
-K("c11_dual_parser_valid_tail", "C11", M_DUAL, fn="c04_dual_capacity_bh2_short_tail", cap=(900, 2400), cost=400, mem=14,
+K("c11_dual_parser_valid_tail", "C11", M_DUAL, fn="c04_dual_capacity_bh2_short_tail", cfg="release", cap=(900, 2400), cost=400, mem=14,
   unwindset=alg_rules(n_text=42, n_verify=42) + dual_rules(n_in=42, n_rle=17), shape="BMC",
   bound="dual parser on the capacity class '3::' + 29 run-free symbols + <= 8 free bytes: Ok => is_valid, never panics",
   enc=["FuzzyHashDualData::from_bytes_with_last_index"])
